@@ -1,8 +1,9 @@
 import NetqasmVerif.Driver.Codec
 import NetqasmVerif.Driver.Reject
+import NetqasmVerif.Driver.Msg
 open Lean NQ.Drv
 
-def handlers : List (String → Json → Option Json) := [handleCodec, handleReject]
+def handlers : List (String → Json → Option Json) := [handleCodec, handleReject, handleMsg]
 
 def dispatch (j : Json) : Json :=
   match (jField? j "op").bind jStr? with
